@@ -12,7 +12,7 @@ import (
 
 func init() {
 	props["C09"] = &propCheck{
-		lean:    []string{"JSight.Props.C09", "JSight.Props.C09_Build", "JSight.Props.C16", "JSight.Props.C19"},
+		lean:    []string{"JSight.Props.C09", "JSight.Props.C09_Build", "JSight.Props.C09_Json", "JSight.Props.C16", "JSight.Props.C19"},
 		exes:    []string{"jsight-build"},
 		run:     runC09,
 		rule:    "accepted projects: generated documents, the accepted fixture files, byte-level mutants of fixtures and generated documents with hostile names/paths (spaces, quotes, non-ASCII, invalid UTF-8), documents whose JSON-RPC (method, path) pairs differ while their id texts coincide (both orders); every accepted one is serialised and read back with a strict (duplicate-key-detecting, UTF-8-validating) JSON reader; non-trivial = accepted with >= 2 interactions; distinct = distinct input bytes",
